@@ -250,6 +250,22 @@ def run(prog, tier) -> Result:
                 return ("valid smallest fraction rejected", f"smallest_fraction={sfc}: {exc_sig(o)}")
             return judge_nu(RF.const(sfc))(o)
         cr.run("R08.4", mnu, f"smallest_fraction = {sfc}", nu_setup(None, Num(RF.const(sfc), "dec")), judge_sf)
+    # both given: accepted when the fraction has exactly that many fractional digits, rejected otherwise; a smallest
+    # fraction given as text is converted
+    def judge_both(k, sfc, ok):
+        def judge(o):
+            if not ok:
+                return expect_raise(o, ["ValueError"])
+            if o.kind == "raise" and str(getattr(o.exc, "where", "")).startswith("MoneyMeta.new_unit"):
+                return ("consistent minor units and smallest fraction rejected", f"minor_unit={k}, smallest_fraction={sfc}: {exc_sig(o)}")
+            return judge_nu(RF.const(sfc))(o)
+        return judge
+    for k, sfc, ok in ((2, Fraction(1, 100), True), (2, Fraction(5, 100), True), (3, Fraction(1, 1000), True),
+                       (2, Fraction(1, 1000), False), (3, Fraction(1, 100), False), (0, Fraction(1, 10), False)):
+        cr.run("R08.4", mnu, f"minor_unit = {k} and smallest_fraction = {sfc}",
+               nu_setup(Num(RF.const(k), "int"), Num(RF.const(sfc), "dec")), judge_both(k, sfc, ok))
+    cr.run("R08.4", mnu, "smallest_fraction given as text '0.05'", nu_setup(None, StrV("0.05")),
+           judge_both(None, Fraction(1, 20), True))
     # ... and those that do not (2/5, 3/10), zero and negative ones are rejected
     for num_, den_ in ((2, 5), (3, 10), (0, 1), (-1, 100)):
         cr.run("R08.4", mnu, f"smallest_fraction = {Fraction(num_, den_)}",
